@@ -140,6 +140,7 @@ def gen_values(cfg, seed):
     sizes = cfg["sizes"]
     N = sum(sizes)
     blk = block_of(sizes)
+    off_ = offsets(sizes)
     out = {}
     real_only = cfg["repr"] == "float"
     for order in cfg["support"]:
@@ -160,6 +161,13 @@ def gen_values(cfg, seed):
                     a[i, j] = 0
                 elif pat == "arrow" and not (blk[i] == 0 or blk[j] == 0 or same):
                     a[i, j] = 0
+                elif pat in ("lowtri", "uptri") and not same:
+                    # element-level sparsity inside the coupling blocks: block (b, b'), b < b', is strictly
+                    # lower (upper) triangular in its local indices; the mirrored block follows by symmetry
+                    (r, c) = (i, j) if blk[i] < blk[j] else (j, i)
+                    lr, lc = r - off_[blk[r]], c - off_[blk[c]]
+                    if (lr <= lc) if pat == "lowtri" else (lr >= lc):
+                        a[i, j] = 0
         if cfg.get("lab_herm"):
             # the term is a Hermitian matrix in the (non-orthogonal) lab basis of the (R, L) pairs
             b = np.triu(a, 1) + np.triu(a, 1).conj().T + np.diag(np.diag(a).real)
